@@ -997,6 +997,9 @@ struct Session {
     up_step: usize,
     down_step: Option<usize>,
     close: Option<CloseRec>,
+    /// the sentinel station (#0, subscribed from the start) has read the PeerDown of this session: the daemon
+    /// has queued every event of the session to every subscriber
+    close_observed: bool,
 }
 
 fn frame(buf: &mut Vec<u8>) -> Option<Vec<u8>> {
@@ -1150,7 +1153,7 @@ async fn spk_connect(cfg: &SpkCfg, idx: usize, bgp_port: u16, step: usize) -> Re
                 }
             }
         });
-        return Ok(Session { spk: idx, wr: Some(wr), codec, rx, reader: Some(reader), my_open, daemon_open, my_port, daemon_port, daemon_ip, ap_in, model: BTreeMap::new(), live: Vec::new(), up_step: step, down_step: None, close: None });
+        return Ok(Session { spk: idx, wr: Some(wr), codec, rx, reader: Some(reader), my_open, daemon_open, my_port, daemon_port, daemon_ip, ap_in, model: BTreeMap::new(), live: Vec::new(), up_step: step, down_step: None, close: None, close_observed: false });
     }
     Err(last)
 }
@@ -1277,6 +1280,19 @@ impl Station {
             o += l;
         }
         self.off += o;
+    }
+    /// has this station read the PeerUp of the session (identified by the speaker's source port) and a
+    /// PeerDown of the peer after it?
+    fn session_closed(&self, addr: IpAddr, rport: u16) -> bool {
+        let mut up_seen = false;
+        for (_, m) in &self.msgs {
+            match m {
+                StMsg::PeerUp { hdr, rport: r, .. } if hdr.ptype == 0 && hdr.addr() == addr && *r == rport => up_seen = true,
+                StMsg::PeerDown { hdr, .. } if up_seen && hdr.addr() == addr => return true,
+                _ => {}
+            }
+        }
+        false
     }
     fn has_peer_up(&self, addr: IpAddr) -> bool {
         // is there a PeerUp for addr that no later PeerDown closed?
@@ -1468,15 +1484,42 @@ async fn e2e_script(rng: &mut Rng, ps: &mut Parsers, prm: &E2eParams, k: u64) ->
     }
 
     macro_rules! close_session {
-        ($i:expr, $kind:expr) => {{
+        ($i:expr, $kind:expr, $overlap:expr) => {{
             let i: usize = $i;
             let kind: CloseKind = $kind;
+            // Some(policy): the last routes of the session, its end and the snapshot phase of a new station overlap
+            let overlap: Option<i32> = $overlap;
             if let Some(si) = up[i].take() {
-                let s = &mut out.sessions[si];
                 let mut sent = None;
-                if let Some(mut w) = s.wr.take() {
+                let mut wopt = out.sessions[si].wr.take();
+                let mut fin_sent = false;
+                if let Some(w) = wopt.as_mut() {
+                    let s = &mut out.sessions[si];
+                    if overlap.is_some() {
+                        // one UPDATE per prefix: many Adj-RIB-In events still to be processed when the end comes
+                        let cfg = &cfgs[i];
+                        let ap = s.ap_in.contains(&fam_id(Family::IPV4));
+                        let mut wire = Vec::new();
+                        let n = rng.range(60, 400);
+                        tag += 1;
+                        let attrs = Arc::new(e2e_attrs(rng, cfg, tag, local_asn));
+                        for j in 0..n {
+                            let net = PathNlri { path_id: if ap { 1 } else { 0 }, nlri: Nlri::V4(Ipv4Net { addr: Ipv4Addr::new(150 + i as u8, (j >> 8) as u8, j as u8, 0), mask: 24 }) };
+                            let nh = Nexthop::V4(Ipv4Addr::new(192, 0, 2, 77));
+                            let exp = RouteExp { family: Family::IPV4, reach: true, entries: vec![net.clone()], nexthop: Some(nh), attrs: attrs.clone(), addpath: ap };
+                            wire.extend_from_slice(&encode_msg(&mut s.codec, &exp.msg()));
+                            s.model.insert((fam_id(Family::IPV4), net.nlri.to_string(), net.path_id), (attrs_canon(&attrs), nh_str(&Some(nh))));
+                        }
+                        let _ = w.write_all(&wire).await;
+                        out.steps.push(format!("{}: speaker {} announces {} routes right before its end", step, i, n));
+                    }
                     match kind {
-                        CloseKind::Drop => {}
+                        CloseKind::Drop => {
+                            if overlap.is_some() {
+                                let _ = w.shutdown().await;
+                                fin_sent = true;
+                            }
+                        }
                         CloseKind::Notify => {
                             let dl = if rng.bool() { 0 } else { rng.range(1, 40) as usize };
                             let n = Notification::from_notification(6, *rng.pick(&[2u8, 3, 4, 6]), rng.bytes(dl));
@@ -1490,21 +1533,29 @@ async fn e2e_script(rng: &mut Rng, ps: &mut Parsers, prm: &E2eParams, k: u64) ->
                             let mut g = vec![0xffu8; 16];
                             g.extend_from_slice(&[0, 5, 4]);
                             let _ = w.write_all(&g).await;
-                            let t0 = Instant::now();
-                            while t0.elapsed() < Duration::from_secs(3) {
-                                {
-                                    let g = s.rx.lock().unwrap();
-                                    if g.eof || g.notif.is_some() {
-                                        break;
-                                    }
+                        }
+                    }
+                }
+                if let Some(policy) = overlap {
+                    add_station!(policy, false);
+                }
+                if let Some(mut w) = wopt {
+                    let s = &mut out.sessions[si];
+                    if kind == CloseKind::Provoke {
+                        let t0 = Instant::now();
+                        while t0.elapsed() < Duration::from_secs(3) {
+                            {
+                                let g = s.rx.lock().unwrap();
+                                if g.eof || g.notif.is_some() {
+                                    break;
                                 }
-                                tokio::time::sleep(Duration::from_millis(2)).await;
                             }
+                            tokio::time::sleep(Duration::from_millis(2)).await;
                         }
                     }
                     match kind {
                         CloseKind::Drop => {
-                            if rng.chance(1, 5) {
+                            if fin_sent || rng.chance(1, 5) {
                                 // orderly FIN (leaves this end in TIME_WAIT, hence the minority case)
                                 let _ = w.shutdown().await;
                                 let t0 = Instant::now();
@@ -1533,10 +1584,27 @@ async fn e2e_script(rng: &mut Rng, ps: &mut Parsers, prm: &E2eParams, k: u64) ->
                         }
                     }
                 }
-                let received = s.rx.lock().unwrap().notif.clone();
-                s.close = Some(CloseRec { kind, sent, received });
-                s.down_step = Some(step);
-                out.steps.push(format!("{}: speaker {} down ({:?})", step, i, kind));
+                let received = out.sessions[si].rx.lock().unwrap().notif.clone();
+                out.sessions[si].close = Some(CloseRec { kind, sent, received });
+                out.sessions[si].down_step = Some(step);
+                // the sentinel station has been subscribed since before the session came up: once it has read the
+                // PeerDown, tables.peer_down() has run, i.e. every event of the session is queued to every subscriber
+                let addr = cfgs[i].addr;
+                let t0 = Instant::now();
+                let mut seen = false;
+                while t0.elapsed() < Duration::from_secs(3) {
+                    out.stations[0].advance(ps);
+                    if out.stations[0].broken.is_some() {
+                        break;
+                    }
+                    if out.stations[0].session_closed(addr, out.sessions[si].my_port) {
+                        seen = true;
+                        break;
+                    }
+                    tokio::time::sleep(Duration::from_millis(2)).await;
+                }
+                out.sessions[si].close_observed = seen;
+                out.steps.push(format!("{}: speaker {} down ({:?}){}", step, i, kind, if seen { "" } else { " [PeerDown not seen on station 0]" }));
             }
         }};
     }
@@ -1568,12 +1636,10 @@ async fn e2e_script(rng: &mut Rng, ps: &mut Parsers, prm: &E2eParams, k: u64) ->
             }
         } else if r < up_w + down_w {
             let kind = *rng.pick(&[CloseKind::Drop, CloseKind::Notify, CloseKind::Provoke]);
-            if prm.churn && up[i].is_some() && rng.chance(1, 2) {
-                // a station whose snapshot phase overlaps the end of this session: the PeerDown
-                // event may reach its serve loop although it never sent a PeerUp for the peer
-                add_station!(rng.range(1, 5) as i32, false);
-            }
-            close_session!(i, kind);
+            // churn: a station whose snapshot phase overlaps the last routes and the end of this session: the
+            // session's live events / PeerDown may reach its serve loop although it never sent a PeerUp for the peer
+            let overlap = if prm.churn && up[i].is_some() && rng.chance(2, 3) { Some(*rng.pick(&[1, 2, 3, 3, 5])) } else { None };
+            close_session!(i, kind, overlap);
         } else if r < up_w + down_w + 12 {
             let q = rng.chance(1, 2);
             if q && !sync!() {
@@ -1651,6 +1717,19 @@ async fn e2e_script(rng: &mut Rng, ps: &mut Parsers, prm: &E2eParams, k: u64) ->
             out.steps.push(format!("{}: speaker {} announces {} routes, withdraws {}", step, i, nsent, nwd));
         }
     }
+    if out.problem.is_none() && up.iter().all(|u| u.is_none()) {
+        // the final synchronisation point is defined by the markers of the sessions that are up
+        step += 1;
+        let i = rng.usize(cfgs.len());
+        match spk_connect(&cfgs[i], i, bgp_port, step).await {
+            Ok(s) => {
+                out.steps.push(format!("{}: speaker {} ({} AS{}) up, port {}, add-path in {:?}", step, i, cfgs[i].addr, cfgs[i].asn, s.my_port, s.ap_in));
+                up[i] = Some(out.sessions.len());
+                out.sessions.push(s);
+            }
+            Err(e) => out.problem = Some(format!("speaker {} could not establish: {}", i, e)),
+        }
+    }
     if out.problem.is_none() {
         // make sure at least one policy of each kind has been exercised over the run: one more racing station
         step += 1;
@@ -1675,7 +1754,7 @@ async fn e2e_script(rng: &mut Rng, ps: &mut Parsers, prm: &E2eParams, k: u64) ->
         for i in idxs {
             let kind = *rng.pick(&[CloseKind::Drop, CloseKind::Notify, CloseKind::Provoke]);
             closed.push(cfgs[i].addr);
-            close_session!(i, kind);
+            close_session!(i, kind, None);
         }
         // give the PeerDowns time to arrive (absence is counted, not judged)
         let t0 = Instant::now();
@@ -2301,6 +2380,171 @@ fn judge_station_c18(rep: &mut Report, out: &Outcome, sti: usize, hseed: u64) {
     rep.count("c18:station-streams-judged");
 }
 
+/// C18's main clause at the BMP boundary: a station that applies what it reads (RouteMonitoring reach /
+/// withdraw per (peer, view, prefix, path id); PeerDown clears the peer; End-of-RIB ignored) must, at the
+/// final synchronisation point, hold exactly the Adj-RIB-In of every peer: what an established peer
+/// announced, and nothing for a peer whose session has ended (no graceful restart is configured, so the
+/// RIB holds nothing of a departed peer).  There is no handle to the daemon's TableManager here (see the
+/// module comment), so "what the RIB holds" is the speakers' own record.
+fn judge_station_rib_c18(rep: &mut Report, out: &Outcome, sti: usize, hseed: u64) {
+    let st = &out.stations[sti];
+    let want_pre = matches!(st.policy, 1 | 3 | 5);
+    let want_post = matches!(st.policy, 2 | 3 | 5);
+    if !want_pre && !want_post {
+        return;
+    }
+    if st.broken.is_some() || !out.synced || out.up_at_end.is_empty() || out.problem.is_some() {
+        rep.count("unjudged:station-rib-no-synchronisation-point");
+        return;
+    }
+    let mk = out.final_marker;
+    // parsers per peer: path ids are present where the session negotiated them (same for every session of a speaker)
+    let mut codecs: BTreeMap<IpAddr, PeerCodec> = BTreeMap::new();
+    for (i, cfg) in out.cfgs.iter().enumerate() {
+        let ap: BTreeSet<u32> = out.sessions.iter().find(|s| s.spk == i).map(|s| s.ap_in.clone()).unwrap_or_default();
+        let mut c = PeerCodec::new();
+        c.extended_length = true;
+        for (f, _) in FAMILIES {
+            let on = ap.contains(&fam_id(*f));
+            c.set_family(*f, FamilyState { addpath_rx: on, addpath_tx: on });
+        }
+        codecs.insert(cfg.addr, c);
+    }
+    let mut open: BTreeSet<IpAddr> = BTreeSet::new();
+    let mut folds: BTreeMap<(IpAddr, u8), BTreeMap<RouteKey, RouteVal>> = BTreeMap::new();
+    // keys that were announced to the station while no PeerUp of the peer was open
+    let mut orphan: BTreeMap<(IpAddr, u8), BTreeSet<RouteKey>> = BTreeMap::new();
+    let mut rms_of: BTreeMap<IpAddr, u64> = BTreeMap::new();
+    // the order of what the station read, run-length encoded
+    let mut order: Vec<(String, u64)> = Vec::new();
+    let mut log = |order: &mut Vec<(String, u64)>, e: String| match order.last_mut() {
+        Some((l, n)) if *l == e => *n += 1,
+        _ => order.push((e, 1)),
+    };
+    let mut reached = false;
+    for (_, m) in &st.msgs {
+        match m {
+            StMsg::PeerUp { hdr, rport, .. } if hdr.ptype == 0 => {
+                open.insert(hdr.addr());
+                log(&mut order, format!("PeerUp {} (remote port {})", hdr.addr(), rport));
+            }
+            StMsg::PeerDown { hdr, reason, .. } => {
+                let a = hdr.addr();
+                open.remove(&a);
+                folds.retain(|k, _| k.0 != a);
+                orphan.retain(|k, _| k.0 != a);
+                log(&mut order, format!("PeerDown {} reason {}", a, reason));
+            }
+            StMsg::Route { hdr, pdu } if hdr.ptype == 0 && hdr.flags & 0x10 == 0 => {
+                let a = hdr.addr();
+                let view = hdr.flags & 0x40;
+                let Some(codec) = codecs.get_mut(&a) else { continue };
+                let Ok(Ok(ParsedMessage::Update(u))) = guard(|| codec.parse_message(pdu)) else {
+                    rep.count("unjudged:station-rib-unparsable-update (C19's to report)");
+                    continue;
+                };
+                *rms_of.entry(a).or_insert(0) += 1;
+                let has_up = open.contains(&a);
+                match u {
+                    ParsedUpdate::EndOfRib(_) => {}
+                    ParsedUpdate::Routes { reach, mp_reach, unreach, mp_unreach, attrs, .. } => {
+                        let canon = attrs_canon(&attrs);
+                        let fold = folds.entry((a, view)).or_default();
+                        let mut what = "withdraw";
+                        for r in reach.into_iter().chain(mp_reach) {
+                            what = "reach";
+                            for e in r.entries {
+                                let k = (fam_id(r.family), e.nlri.to_string(), e.path_id);
+                                if !has_up {
+                                    orphan.entry((a, view)).or_default().insert(k.clone());
+                                }
+                                fold.insert(k, (canon.clone(), nh_str(&r.nexthop)));
+                            }
+                        }
+                        for w in unreach.into_iter().chain(mp_unreach) {
+                            for e in w.entries {
+                                fold.remove(&(fam_id(w.family), e.nlri.to_string(), e.path_id));
+                            }
+                        }
+                        log(&mut order, format!("RouteMonitoring {} {} {}{}", a, if view == 0 { "pre" } else { "post" }, what, if has_up { "" } else { " [no PeerUp open for this peer]" }));
+                    }
+                }
+                // the synchronisation point: the last marker of every session that is up, in every subscribed view
+                reached = out.up_at_end.iter().all(|&si| {
+                    let s = &out.sessions[si];
+                    let pa = out.cfgs[s.spk].addr;
+                    let k: RouteKey = (fam_id(Family::IPV4), format!("10.{}.{}.{}/32", 240 + s.spk, (mk >> 8) & 255, mk & 255), if s.ap_in.contains(&fam_id(Family::IPV4)) { 7 } else { 0 });
+                    (!want_pre || folds.get(&(pa, 0)).is_some_and(|m| m.contains_key(&k))) && (!want_post || folds.get(&(pa, 0x40)).is_some_and(|m| m.contains_key(&k)))
+                });
+                if reached {
+                    break;
+                }
+            }
+            _ => {}
+        }
+    }
+    if !reached {
+        rep.count("unjudged:station-rib-no-synchronisation-point");
+        return;
+    }
+    let empty: BTreeMap<RouteKey, RouteVal> = BTreeMap::new();
+    for (i, cfg) in out.cfgs.iter().enumerate() {
+        let up_sess = out.up_at_end.iter().find(|&&si| out.sessions[si].spk == i);
+        let sessions: Vec<&Session> = out.sessions.iter().filter(|s| s.spk == i).collect();
+        let (expected, departed) = match up_sess {
+            Some(&si) => (&out.sessions[si].model, false),
+            None => {
+                if sessions.iter().any(|s| !s.close_observed) {
+                    rep.count("unjudged:station-rib-end-of-session-not-observed");
+                    continue;
+                }
+                (&empty, true)
+            }
+        };
+        for (want, view, vname) in [(want_pre, 0u8, "pre"), (want_post, 0x40u8, "post")] {
+            if !want {
+                continue;
+            }
+            rep.eval();
+            let got = folds.get(&(cfg.addr, view)).unwrap_or(&empty);
+            if got == expected {
+                rep.count(if departed { "c18:station-rib-departed-peer-empty" } else { "c18:station-rib-established-peer-equal" });
+                if departed && rms_of.get(&cfg.addr).copied().unwrap_or(0) > 0 {
+                    rep.count("c18:station-rib-departed-peer-had-routes");
+                    rep.nontrivial(fnv64(format!("rib{}{}{}{}", hseed, sti, cfg.addr, view).as_bytes()));
+                }
+                continue;
+            }
+            let leftover: Vec<&RouteKey> = got.keys().filter(|k| !expected.contains_key(*k)).collect();
+            let missing: Vec<&RouteKey> = expected.iter().filter(|(k, v)| got.get(*k) != Some(*v)).map(|(k, _)| k).collect();
+            let orph = orphan.get(&(cfg.addr, view));
+            let all_orphan = !leftover.is_empty() && leftover.iter().all(|k| orph.is_some_and(|o| o.contains(*k)));
+            let sig = if missing.is_empty() && all_orphan { "C18/bmp-station/routes-of-departed-peer" } else { "C18/bmp-station/adj-rib-in-differs" };
+            let what = if sig.ends_with("departed-peer") {
+                "a BMP station was sent RouteMonitoring of a session that had ended without ever being sent its PeerUp; the PeerDown is then suppressed, so the station keeps routes the RIB no longer holds (last event delivered is not the current state)"
+            } else {
+                "the Adj-RIB-In a BMP station ends with (snapshot + live RouteMonitoring, PeerDown clears the peer) is not the one the RIB holds"
+            };
+            rep.violation(
+                sig,
+                what,
+                Json::obj(vec![
+                    ("station", Json::s(format!("#{} policy={} connected at step {} quiescent={}", sti, policy_name(st.policy), st.connect_step, st.quiescent))),
+                    ("peer", Json::s(format!("{} AS{} ({})", cfg.addr, cfg.asn, if departed { "no session at the end" } else { "established at the end" }))),
+                    ("view", Json::s(vname)),
+                    ("rib_holds", Json::Int(expected.len() as i128)),
+                    ("station_holds", Json::Int(got.len() as i128)),
+                    ("station_only", Json::strs(leftover.iter().take(5).map(|k| format!("{:?}", k)))),
+                    ("rib_only_or_differing", Json::strs(missing.iter().take(5).map(|k| format!("{:?}", k)))),
+                    ("read_by_station_in_order", Json::strs(order.iter().map(|(e, n)| if *n > 1 { format!("{} x{}", e, n) } else { e.clone() }))),
+                    ("script", Json::strs(out.steps.iter().cloned())),
+                    ("history_seed", Json::Int(hseed as i128)),
+                ]),
+            );
+        }
+    }
+}
+
 /// `send_peer_up` / `send_peer_down` (hence `track_peer_up/down`) driven directly
 /// with arbitrary event orders over a loopback `Framed`, as the serve loop does
 /// for BgpEvent::PeerUp / PeerDown.  Many cases share one TCP connection (each
@@ -2504,6 +2748,7 @@ fn c18_peer_tracking() {
         rep.count_n("c18:e2e-sessions", out.sessions.len() as u64);
         for i in 0..out.stations.len() {
             judge_station_c18(&mut rep, &out, i, hseed);
+            judge_station_rib_c18(&mut rep, &out, i, hseed);
         }
         if rep.want_sample() {
             rep.sample(Json::obj(vec![("kind", Json::s("e2e")), ("history_seed", Json::Int(hseed as i128)), ("script", Json::strs(out.steps.iter().cloned()))]));
